@@ -73,8 +73,8 @@ def seeded(args):
         errors = [x for x in res if x["rc"] == 2]
         meta["detected_by"] = flagged
         meta["checks_run"] = {x["prop"]: ("VIOLATION" if x["rc"] == 1 else "tool error" if x["rc"] == 2 else "silent") for x in res}
-        meta["what_i_ran"] = "git -C /repo apply seeded/%s/patch.diff; ./check <prop> --tier quick for %s; git -C /repo checkout -- ." % (
-            i, "all 19 properties" if allchecks else ", ".join(props))
+        meta["what_i_ran"] = "git -C /repo apply seeded/%s/patch.diff; ./check <prop> --tier %s for %s; git -C /repo checkout -- ." % (
+            i, meta.get("expected_tier", "quick"), "all 19 properties" if allchecks else ", ".join(props))
         json.dump(meta, open(os.path.join(d, "meta.json"), "w"), indent=1)
         status = "DETECTED by " + ",".join(flagged) if flagged else "MISSED"
         want = meta.get("expected", [meta["property"]])
